@@ -15,6 +15,7 @@ From Coq Require Import List Bool Arith NArith.
 Import ListNotations.
 Require Import PV.TypeVar.Base PV.TypeVar.Model PV.TypeVar.Spec PV.TypeVar.Simple PV.Call.Model.
 Require Import PV.Binder.Kind PV.Binder.Sig PV.Binder.Bind PV.Binder.PyBind.
+Require PV.Proofs.BinderStar.
 Require Import PV.Proofs.CallMain PV.Proofs.CallAtoms PV.Proofs.SolveAtoms PV.Proofs.CallCore.
 Require PV.Core.Obj PV.Core.Val PV.Core.Cls PV.Core.Member PV.Core.CanAssignK PV.Proofs.C03Main.
 Require Import PV.Gen.Solve PV.Gen.SolveAtoms PV.Gen.CallObjs.
@@ -26,6 +27,14 @@ Theorem C06_binding_failure_iff_cpython_rejects : forall (V : Type) (s : @csig V
   (cbind s c = None <-> py_bind (sig_of s) (length (a_pos c)) (map fst (a_kw c)) = false).
 Proof. exact @binding_failure_iff_cpython_rejects. Qed.
 Print Assumptions C06_binding_failure_iff_cpython_rejects.
+
+(* ... and with star arguments: a call that the model binds has an expansion of its
+   *args / **kwargs arguments that CPython binds (C05_bind_star_accept_sound composed) *)
+Theorem C06_bound_star_call_has_binding_expansion : forall (V : Type) (s : @csig V) c b,
+  valid_sig (sig_of s) = true -> names_nodup (map fst (a_kw c)) = true -> cbind s c = Some b ->
+  exists npos' kws', PV.Proofs.BinderStar.expansion (actuals_of c) npos' kws' /\ py_bind (sig_of s) npos' kws' = true.
+Proof. exact @bound_star_call_has_binding_expansion. Qed.
+Print Assumptions C06_bound_star_call_has_binding_expansion.
 
 (* signatures without type variables: one incompatible_argument per parameter with a
    rejected argument value, and nothing else — all parameter kinds, star arguments included *)
